@@ -62,6 +62,14 @@ _t("disc", {"oneOf": [{"$ref": "#/components/schemas/Dog"}, {"$ref": "#/componen
 _t("disc_cat", {"oneOf": [{"$ref": "#/components/schemas/Dog"}, {"$ref": "#/components/schemas/Cat"}], "discriminator": {"propertyName": "kind", "mapping": {"dog": "#/components/schemas/Dog", "puppy": "#/components/schemas/Dog", "cat": "#/components/schemas/Cat"}}},
    [{"kind": "cat", "lives": 9}, {"kind": "cat", "lives": 1}], DEEP)  # every field present: the deep comparison knows no optionality
 _t("nullstr", {"type": "string", "nullable": True}, ["text", None], leaf("str"))
+# falsy-but-supplied values: members / values that a truthiness test would take for "absent"
+_t("enumfalsy", {"type": "string", "enum": ["", "asc", "desc"]}, ["", "asc"], leaf("enum"))
+_t("intenumzero", {"type": "integer", "enum": [0, 1, 2]}, [0, 2], leaf("intenum"))
+_t("nullenumfalsy", {"type": "string", "nullable": True, "enum": ["", "asc", "desc", None]}, ["", None], leaf("enum"))
+_t("nullintenumzero", {"type": "integer", "nullable": True, "enum": [0, 1, 2, None]}, [0, None], leaf("intenum"))
+_t("zero", {"type": "integer"}, [0, 0], leaf("int"))
+_t("emptystr", {"type": "string"}, ["", ""], leaf("str"))
+_t("zeronum", {"type": "number"}, [0.0, 0.0], leaf("num"))
 _t("anyobj", {"type": "object", "additionalProperties": True}, [{"free": 1, "form": "x"}, {}], {"k": "map", "p": "", "of": [leaf("any")], "fields": []})
 
 # third key of every style: a name that equals the SUFFIXED / ESCAPED form a de-collision or keyword rule derives from the first
